@@ -158,6 +158,8 @@ inductive ConnAns where
 
 /-- everything the environment decides during one `executeRequest` call -/
 structure Attempt where
+  https : Bool := false          -- NOT an answer of the environment: the scheme of the request's URL (the same for every attempt of
+                                 -- a request); kept here so that one record holds everything acquireConnection looks at
   lease : LeaseAns := .granted
   cacheFresh : Bool := true      -- `now - lastUsed < connectionIdleTimeout` (asked only if an entry is cached)
   connect : ConnAns := .ok       -- asked only if a connection is opened
@@ -180,9 +182,10 @@ structure Cfg where
   deriving Repr
 
 structure Client where
-  conns : List (Host × Sid) := []   -- `_connections`
+  conns : List (Host × Sid) := []   -- `_connections`: host:port ↦ ConnectionEntry.id
   leased : List Host := []          -- `_leasedHosts`
   nextSid : Sid := 1                -- engine's `_nextSessionId`
+  tls : List (Sid × Bool) := []     -- ConnectionEntry.tls of every session ever published (true = TlsMode::Client)
   deriving Repr, DecidableEq
 
 /-- calls the requesting thread makes on the engine, plus lease bookkeeping -/
@@ -200,21 +203,25 @@ def eraseHost (h : Host) (l : List (Host × Sid)) : List (Host × Sid) := l.filt
 def dropConnection (c : Client) (h : Host) (sid : Sid) : Client × List Ev :=
   ({ c with conns := if c.conns.lookup h = some sid then eraseHost h c.conns else c.conns }, [.close sid])
 
-/-- steps (2)–(4) of acquireConnection: open a new connection with `connectSync`, publish it on success -/
+/-- steps (2)–(4) of acquireConnection: open a new connection with `connectSync`, publish it (with its TLS mode) on success -/
 def connectNew (c : Client) (h : Host) (a : Attempt) : Client × Except Exn Sid × List Ev :=
   let sid := c.nextSid
   let c2 : Client := { c with nextSid := sid + 1 }
   match a.connect with
-  | .ok => ({ c2 with conns := (h, sid) :: eraseHost h c2.conns }, .ok sid, [.connect h sid])
+  | .ok => ({ c2 with conns := (h, sid) :: eraseHost h c2.conns, tls := (sid, a.https) :: c2.tls }, .ok sid, [.connect h sid])
   | .refused => (c2, .error (exnOfName Gen.HttpRetry.connectFailThrow), [.connect h sid])
   | .timedOut => (c2, .error (exnOfName Gen.HttpRetry.connectFailThrow), [.connect h sid, .close sid])
+
+/-- the reuse test of step (1): `it->second.tls == tlsMode && now - lastUsed < connectionIdleTimeout` -/
+def entryUsable (c : Client) (sid : Sid) (a : Attempt) : Bool :=
+  (c.tls.lookup sid == some a.https) && a.cacheFresh
 
 /-- mirrors http_client.hpp::acquireConnection -/
 def acquireConnection (c : Client) (h : Host) (a : Attempt) : Client × Except Exn Sid × List Ev :=
   match c.conns.lookup h with
   | some sid =>
-    if a.cacheFresh then (c, .ok sid, [])                      -- (1) reuse
-    else                                                       -- idle: close + evict, then reconnect
+    if entryUsable c sid a then (c, .ok sid, [])               -- (1) reuse
+    else                                                       -- other TLS mode or idle: close + evict, then reconnect
       let (c', r, ev) := connectNew { c with conns := eraseHost h c.conns } h a
       (c', r, .close sid :: ev)
   | none => connectNew c h a
@@ -420,8 +427,62 @@ def runRequests (cfg : Cfg) : Client → List Request → Client × List Ev × L
     (c', r.evs ++ evs, r :: rs)
 
 /-- back-off before retry number `attempt + 1`: `(1 << attempt) * base + jitter` ms, jitter ∈ [lo, hi] -/
-def backoffLo (attempt : Nat) : Nat := 2 ^ attempt * Gen.HttpRetry.backoffBaseMs + Gen.HttpRetry.jitterLo
-def backoffHi (attempt : Nat) : Nat := 2 ^ attempt * Gen.HttpRetry.backoffBaseMs + Gen.HttpRetry.jitterHi
+def backoffExp (attempt : Nat) : Nat :=
+  if Gen.HttpRetry.backoffShiftCap = 0 then attempt else min attempt Gen.HttpRetry.backoffShiftCap
+def backoffLo (attempt : Nat) : Nat := 2 ^ backoffExp attempt * Gen.HttpRetry.backoffBaseMs + Gen.HttpRetry.jitterLo
+def backoffHi (attempt : Nat) : Nat := 2 ^ backoffExp attempt * Gen.HttpRetry.backoffBaseMs + Gen.HttpRetry.jitterHi
+
+/-! ## Public entry points (table from the source) -/
+
+/-- the method a public entry point hands to `performRequest`, following delegations (`getAsync → get → performRequest("GET")`).
+The translator guarantees for every row: exactly one request-issuing call, outside try/catch and loops, with the caller's
+`retries` passed on unchanged — so a public call IS one `performRequest` with this method and the caller's budget. -/
+def entryMethod : Nat → String → Option String
+  | 0, _ => none
+  | n + 1, fn =>
+    match Gen.HttpRetry.entryPoints.find? (fun e => e.1 == fn) with
+    | some (_, callee, m, _) => if callee = "performRequest" then some m else entryMethod n callee
+    | none => none
+
+/-- a call of the public function `fn` with budget `rq.retries` (`rq.method` is ignored: the entry point fixes the method) -/
+def publicCall (cfg : Cfg) (c : Client) (fn : String) (rq : Request) : Option Run :=
+  (entryMethod 4 fn).map fun m => performRequest cfg c { rq with method := m }
+
+/-! ## Timed waits (R6) -/
+
+structure Timeouts where
+  request : Nat := Gen.HttpRetry.requestTimeoutMs
+  connect : Nat := Gen.HttpRetry.connectTimeoutMs
+  lease : Nat := Gen.HttpRetry.leaseAcquireTimeoutMs
+
+/-- value of a time-out expression of the source (`Gen.timedWaits`), for a loopback peer -/
+def evalWait (t : Timeouts) (expr : String) : Option Nat :=
+  if expr = "requestTimeout" then some t.request
+  else if expr = "leaseAcquireTimeout" then some t.lease
+  else if expr = "localMinConnectTimeoutCap" then some (min t.connect Gen.HttpRetry.localConnectCapMs)
+  else if expr = "zero" then some 0
+  else none
+
+/-- milliseconds the caller is prepared to wait in the timed wait `w` ∈ lease | connect | receive | probe -/
+def waitMs (t : Timeouts) (w : String) : Option Nat := (Gen.HttpRetry.timedWaits.lookup w).bind (evalWait t)
+
+/-- which timed wait of an attempt ends by its time-out, if any (specification of the attempt's silent phase) -/
+def timedOutWait (c : Client) (urlOk : Bool) (h : Host) (a : Attempt) : Option String :=
+  if !urlOk then none else
+  match a.lease with
+  | .timedOut => some "lease"
+  | .closing => none
+  | .granted =>
+    let opens : Bool := match c.conns.lookup h with
+      | some sid => !entryUsable c sid a
+      | none => true
+    if opens && a.connect = .timedOut then some "connect"
+    else if opens && a.connect = .refused then none
+    else if !a.setSync || !a.send then none
+    else match a.recvs.dropWhile (fun e => match e with | .more => true | _ => false) with
+      | [] => some "receive"
+      | .timeout :: _ => some "receive"
+      | _ => none
 
 
 /-! ## Trace predicates used by the theorems (specification side, nothing here mirrors code) -/
